@@ -84,6 +84,7 @@ import (
 	"cmp"
 	"context"
 	"crypto/rand"
+	"encoding/binary"
 	"errors"
 	"fmt"
 	"io"
@@ -367,6 +368,10 @@ func (c *fsCache) get(key string) ([]byte, error) {
 		if err != nil {
 			return nil, err
 		}
+		data, err = unbindKey(key, data)
+		if err != nil {
+			return nil, err
+		}
 	}
 	if c.updateMTime {
 		mtime := time.Now()
@@ -403,7 +408,7 @@ func (c *fsCache) Set(key string, entry []byte) error {
 func (c *fsCache) set(key string, entry []byte) error {
 	if c.enc != nil {
 		var err error
-		entry, err = c.enc.Encrypt(entry)
+		entry, err = c.enc.Encrypt(bindKey(key, entry))
 		if err != nil {
 			return err
 		}
@@ -436,6 +441,26 @@ func (c *fsCache) set(key string, entry []byte) error {
 		return err
 	}
 	return nil
+}
+
+var errKeyMismatch = errors.New("fscache: encrypted entry belongs to another key")
+
+// bindKey prefixes an entry with its key before encryption, so that the
+// authenticated plaintext says which key it was stored for: an encrypted file
+// moved or copied to the name of another key is rejected by unbindKey.
+func bindKey(key string, entry []byte) []byte {
+	b := make([]byte, 0, binary.MaxVarintLen64+len(key)+len(entry))
+	b = binary.AppendUvarint(b, uint64(len(key)))
+	b = append(b, key...)
+	return append(b, entry...)
+}
+
+func unbindKey(key string, data []byte) ([]byte, error) {
+	n, w := binary.Uvarint(data)
+	if w <= 0 || n != uint64(len(key)) || uint64(len(data)-w) < n || string(data[w:w+len(key)]) != key {
+		return nil, errKeyMismatch
+	}
+	return data[w+len(key):], nil
 }
 
 // tmpPrefix starts the name of the temporary files written by set; the dot is
